@@ -46,6 +46,7 @@ const preludeBase = `(set-logic ALL)
 (declare-fun tfield (Int Str) Bool)
 (declare-fun texported (Int Str) Bool)
 (declare-fun tnumfield (Int) Int)
+(declare-fun tviaptr (Int Str) Bool)
 (declare-fun sprint1 (Val) Str)
 (declare-fun sprintf5 (Str Val Val Val Val Val) Str)
 (declare-fun requote (Str) Str)
@@ -60,6 +61,16 @@ const preludeBase = `(set-logic ALL)
 (assert (tcomparable 0))
 (assert (forall ((t Int)) (! (=> (or (and (<= 1 (kindof t)) (<= (kindof t) 16)) (= (kindof t) 18) (= (kindof t) 22) (= (kindof t) 24) (= (kindof t) 26)) (tcomparable t)) :pattern ((tcomparable t)))))
 (assert (forall ((t Int)) (! (=> (or (= (kindof t) 19) (= (kindof t) 21) (= (kindof t) 23)) (not (tcomparable t))) :pattern ((tcomparable t)))))
+; tdeepcmp t: no value of type t makes == panic (t is comparable and holds no interface at
+; any depth, or is a basic/pointer/channel/string kind); vcomparable v: comparing v with any
+; value does not panic (reflect.Value.Comparable). A struct or array type that is Comparable()
+; can still hold an interface field whose dynamic value is a slice or map.
+(declare-fun tdeepcmp (Int) Bool)
+(declare-fun vcomparable (Val) Bool)
+(assert (tdeepcmp 0))
+(assert (forall ((t Int)) (! (=> (or (and (<= 1 (kindof t)) (<= (kindof t) 16)) (= (kindof t) 18) (= (kindof t) 22) (= (kindof t) 24) (= (kindof t) 26)) (tdeepcmp t)) :pattern ((tdeepcmp t)))))
+(assert (forall ((t Int)) (! (=> (tdeepcmp t) (tcomparable t)) :pattern ((tdeepcmp t)))))
+(assert (forall ((v Val)) (! (and (=> (tdeepcmp (typeof v)) (vcomparable v)) (=> (vcomparable v) (tcomparable (typeof v)))) :pattern ((vcomparable v)))))
 (declare-fun telem (Int) Int)
 (declare-fun tkey (Int) Int)
 ; ---- integer helpers --------------------------------------------------------
